@@ -206,7 +206,7 @@ const INFIX: &[&str] = &[
     "=", "+=", "-=", "*=", "/=", "%=", "<<=", ">>=", "&=", "^=", "|=", "||", "&&", "<", "<=", ">", ">=", "==", "!=", "|", "^", "&", "<<", ">>", "+",
     "-", "*", "/", "%", "beginWith", "endWith", "in",
 ];
-const PREFIX: &[&str] = &["-", "+", "!", "not", "AND", "OR"];
+const PREFIX: &[&str] = &["-", "+", "!", "not", "AND", "OR", "-", "!", "++", "--"];
 const POSTFIX: &[&str] = &["++", "--"];
 
 fn gen_expr(rng: &mut impl Rng, depth: u32, out: &mut Vec<String>, user_ops: &[String]) {
